@@ -106,3 +106,16 @@ sh('sh_procs_first', ['a%'],
          Sub('inc%', 'function', [('v%', None)],
              [('setret', B('+', B('MOD', var('v%'), I(100)), I(1)))])],
    subs_first=True, budget=600)
+
+# a block IF (no ELSE / empty ELSE) immediately followed by empty-bodied
+# blocks whose HEADERS generate code that can fail: the header code must be
+# attributed to the header line, not to the closing line of the block
+sh('sh_if_then_empty_blocks', ['a%', 'b%'],
+   [('if', [(B('>', var('a%'), I(100)), [P(S('big'))])], None),
+    ('while', B('>', B('\\', var('b%'), var('a%')), I(50)), []),
+    ('if', [(B('<', var('a%'), I(0)), [])], []),
+    ('for', var('i%'), I(1), B('\\', I(3), var('a%')), None, []),
+    ('if', [(B('=', var('a%'), I(7)), [P(S('seven'))])], []),
+    ('do', 'do_until', B('>=', B('\\', I(9), var('a%')), U('-', I(9))), []),
+    P(S('end'), ';', var('i%'))],
+   pre='-3 <= x0 <= 300 and -200 <= x1 <= 200', budget=900)
